@@ -341,6 +341,11 @@ impl<'a> Parser<'a> {
                 parameters.push(name.to_owned());
                 self.advance();
                 self.skip_optional(Token::Comma);
+            } else {
+                return Err(ParseError::SyntaxError(format!(
+                    "onverwachte token. verwachtte een parameternaam, maar kreeg {:?}",
+                    self.current_token
+                )));
             }
         }
         self.skip(Token::CloseParen)?;
